@@ -90,7 +90,7 @@ impl<'a> ScriptGen<'a> {
             .map(|e| e.spec.replies_feature && Table::of(e).names.contains_key("alw"))
             .unwrap_or(false);
         if has_alw && rng.chance(2, 3) {
-            ReplyReq::Handler { name: "alw".into(), payload, recv: *rng.pick(&[0u8, 2, 3, 6, 9, 5]) }
+            ReplyReq::Handler { name: "alw".into(), payload, recv: *rng.pick(&[0u8, 2, 3, 6, 9, 5]), pre: None }
         } else {
             ReplyReq::Raw { id: rng.below(3), on: rng.below(4) as u8, payload }
         }
@@ -303,9 +303,29 @@ impl<'a> ScriptGen<'a> {
                 // any string is an address as far as the handle is concerned
                 const ODD: [&str; 8] = ["", "we\"ird", "back\\slash", "tab\there", "line\nbreak", "uni\u{e9}\u{4e16}", "ctl\u{1}x", "sp ace/colon:"];
                 let all: Vec<String> = rt::registry::all().into_iter().map(|(k, _)| k.clone()).collect();
-                let slot = rng.pick(&slots).to_string();
-                out.push(Step::SaveRemote { slot: slot.clone(), addr: rng.pick(&ODD).to_string(), ty: rng.pick(&all).clone(), form: rng.below(2) as u8 });
-                out.push(Step::Resave { slot, to: rng.pick(&slots).to_string(), ty: rng.pick(&all).clone() });
+                // also: long strings, and long strings that differ from one another in a single byte
+                let addr = match rng.below(4) {
+                    0 => rng.pick(&ODD).to_string(),
+                    1 => "L".repeat(rng.range(80, 200) as usize) + &rng.below(10).to_string(),
+                    _ => {
+                        let mut b = vec![b'q'; rng.pick(&[33usize, 40, 64, 65]).to_owned()];
+                        let i = rng.below(b.len() as u64) as usize;
+                        b[i] = b'a' + rng.below(26) as u8;
+                        String::from_utf8(b).unwrap()
+                    }
+                };
+                for _ in 0..rng.range(1, 2) {
+                    let slot = rng.pick(&slots).to_string();
+                    let mut a = addr.clone().into_bytes();
+                    if !a.is_empty() && rng.chance(1, 2) {
+                        let i = rng.below(a.len() as u64) as usize;
+                        if a[i].is_ascii_lowercase() {
+                            a[i] = b'a' + rng.below(26) as u8;
+                        }
+                    }
+                    out.push(Step::SaveRemote { slot: slot.clone(), addr: String::from_utf8(a).unwrap_or_default(), ty: rng.pick(&all).clone(), form: rng.below(2) as u8 });
+                    out.push(Step::Resave { slot, to: rng.pick(&slots).to_string(), ty: rng.pick(&all).clone() });
+                }
             }
             2 => {
                 // any registered handle type may read any slot
